@@ -71,11 +71,23 @@ type c03Sys struct {
 	tree    *wtree // n leaves of bridge 1
 	other   *wtree // 2 different leaves of bridge 1
 	bitsPer int    // bit flips per byte (1 quick, 8 thorough)
+	impl    bool   // trees built with the repository's helpers
 	probes  atomic.Int64
 	accepts atomic.Int64
 	states  atomic.Int64
 	baseOK  atomic.Int64
 	perts   atomic.Int64 // number of distinct perturbations of the last family built
+}
+
+// newC03SysImpl: same system, but the committed trees are built with the repository's own helpers
+// (what an off-chain prover linking this code would commit). If the formats drift from the
+// published ones, the handler accepts such claims while the independent verifier rejects them.
+func newC03SysImpl(n, bitsPer int) *c03Sys {
+	y := newC03Sys(n, bitsPer)
+	y.tree = mkTreeImpl(y.tree.Name, y.tree.Ws, y.tree.Version)
+	y.other = mkTreeImpl(y.other.Name, y.other.Ws, y.other.Version)
+	y.impl = true
+	return y
 }
 
 func newC03Sys(n, bitsPer int) *c03Sys {
@@ -447,6 +459,23 @@ func init() {
 				res.Require(y.baseOK.Load() > 0, "%s: the unperturbed claim was never accepted", name)
 				res.Require(res.OutcomeCount(name, "ClaimValid/rejected-though-valid") == 0, "%s: a verifier-valid claim was rejected", name)
 			}
+			// the same matrix over trees committed with the repository's own helper functions
+			{
+				y := newC03SysImpl(3, 1)
+				o := opts(rc, 3)
+				if rc.Thorough() {
+					o = opts(rc, 4)
+				}
+				rep, err := engine.Explore[*c03State](y, o)
+				if err != nil {
+					res.HarnessErr = err
+					return res
+				}
+				res.Absorb("tree=3/prover-uses-repository-helpers", rep)
+				probes += y.probes.Load()
+				accepts += y.accepts.Load()
+				res.Coverage["perturbations/tree=3/prover-uses-repository-helpers"] = map[string]any{"oracle_states": y.states.Load(), "probes": y.probes.Load(), "accepted": y.accepts.Load(), "unperturbed_accepted": y.baseOK.Load()}
+			}
 			res.Coverage["probes"] = probes
 			res.Coverage["probes_accepted"] = accepts
 			res.Coverage["alphabet"] = "state shaping: Propose(b1,Tn) Propose(b1,Tother) Propose(b2,same root) Delete(b1,1) Advance(4s|10s) ClaimValid(leaf0|leafLast); probe family in every state × every leaf: single perturbations of bridge id, sequence, sender, recipient, denom, amount (incl. +2^64), every proof element (bit flips, replacement, swap, truncation), proof length, output index, version, storage root, block hash, whole preimage; pairs of field representatives"
@@ -455,6 +484,9 @@ func init() {
 			return res
 		},
 		Replay: func(kind string, path []string) ([]string, *engine.Violation, error) {
+			if kind == "tree=3/prover-uses-repository-helpers" {
+				return engine.Replay[*c03State](newC03SysImpl(3, 1), path)
+			}
 			var n int
 			fmt.Sscanf(kind, "tree=%d", &n)
 			if n == 0 {
